@@ -16,6 +16,11 @@ stage 4  recorded traces + grammar-generated hostile URLs + random unicode (+ a 
          agreeing observations) are validated by TLC against spec/Url_Trace.tla: Url!Verdict names
          the failing clause (hard), Drift compares with ModelParse (soft)
 
+Watchdog: every evaluation of the real code runs in a forked worker under a CPU-time budget
+(vh/guard.py: max(2 s, 200 x median per-input CPU time) of WORKER CPU time, so machine load cannot
+trip it); an input whose evaluation is killed is recorded with the observation "did-not-return",
+which Url!Verdict judges with the hard clause Totality:DidNotReturn.  The harness never hangs.
+
 NOT covered: the running-time clause ("no super-linear running time") - a resource bound is not
 expressible in TLA+/TLC.  An informational timing probe is recorded in the evidence; it can flag
 only a totality violation (an exception other than LocationParseError), never a timing one.
@@ -29,7 +34,7 @@ import os
 import random
 import time
 
-from . import known, tlc
+from . import guard, known, tlc
 
 JOBS = int(os.environ.get("VERIF_JOBS") or os.cpu_count() or 4)   # every pool is sized by this
 
@@ -162,6 +167,25 @@ def _new_res():
 
 # ------------------------------------------------------------------------------ stages 1-3 (one shard)
 
+def guarded_observe(strings, res, **kw):
+    """observe() on every string inside the CPU-time watchdog (vh/guard.py).  A string whose evaluation
+    was killed yields the observation k = "did-not-return"; strings abandoned after too many kills are
+    counted in res["skipped"] (the run is a failure by then)."""
+    _api()           # import the code under test before forking, so the workers start warm
+    evs, dnr, info = guard.guarded_map(observe, strings, **kw)
+    for i, used in dnr.items():
+        evs[i] = dict(observe_stub(strings[i]), k="did-not-return", cpu_s=round(used, 2))
+    res["dnr"] = res.get("dnr", 0) + len(dnr)
+    res["skipped"] = res.get("skipped", 0) + len(info["skipped"])
+    res["budget_s"] = max(res.get("budget_s", 0.0), info["budget_s"])
+    res["max_input_cpu_s"] = max(res.get("max_input_cpu_s", 0.0), info["max_input_cpu_s"])
+    return evs
+
+
+def observe_stub(s):
+    return {"kind": "parse", "s": [ord(c) for c in s], "k": "-", "u": DUMMY, "k2": "-", "u2": DUMMY, "ref": []}
+
+
 def _exhaustive_shard(job):
     plan, c1, c2, sample_seed = job
     alpha = {"MCAlpha12": ALPHA12, "MCAlpha13": ALPHA13}[plan["alpha"]]
@@ -172,13 +196,54 @@ def _exhaustive_shard(job):
     res.update(emitted=0, agree=0, evaluations=0, accepted=0, nontrivial=0, samples=[])
     pending = []
 
-    def handle(d):
-        s_cp, kind, pos, port, mk, mu, k2m, samem, demand = d
-        s = text(s_cp)
-        emitted[s] = True
-        ref = [kind, pos, port]
-        ev = observe(s, ref)
+    def on_line(ln):
+        if not ln.startswith('<<"R", "'):
+            return False
+        if not ln.endswith('">>'):
+            raise tlc.MachineryError("truncated emission line: " + ln[:200])
+        d = json.loads(ln[8:-3].replace('\\"', '"'))
+        emitted[text(d[0])] = d[1:]
+        res["emitted"] += 1
+        return True
+
+    invs = "".join(f"INVARIANT {i}\n" for i in STAGE1_INVS + ["EmitRef"])
+    r = tlc.run("MC_Url", MC_CFG.format(alpha=plan["alpha"], p=plan["p"], n=plan["n"], sl=plan["sl"], c1=c1, c2=c2, invs=invs),
+                workers=1, on_line=on_line, timeout=14400)
+    res.update(distinct=r.distinct, generated=r.generated, violated=r.violated, wall=r.wall, domain=0)
+    if r.violated:        # TLC stopped at the counter-example: the run is reported as a stage-1 violation
+        res["trace"] = [ln for ln in r.out.splitlines() if ln.startswith("s = ")][-1:]
+        return res
+    # the whole domain of this shard (strings that printed nothing: the model predicts LocationParseError)
+    if plan["sl"] == 0:
+        heads, maxrest = [""], plan["n"]
+    elif c1 == 0:
+        heads, maxrest = [""] + ([chr(c) for c in alpha] if plan["sl"] == 2 else []), 0
+    else:
+        heads, maxrest = [chr(c1) + (chr(c2) if plan["sl"] == 2 else "")], plan["n"] - plan["sl"]
+    chars = [chr(c) for c in alpha]
+    domain = [pfx + h + "".join(tup) for h in heads for k in range(0, maxrest + 1) for tup in itertools.product(chars, repeat=k)]
+    res["domain"] = len(domain)
+    dset = set(domain)
+    if len(domain) != r.distinct or len(dset) != len(domain) or any(s not in dset for s in emitted):
+        raise tlc.MachineryError(f"shard {plan} c1={c1} c2={c2}: python domain {len(domain)} != TLC distinct states {r.distinct}")
+    # stage 3: the real parse_url on every string of the domain, inside the CPU-time watchdog
+    for s, ev in zip(domain, guarded_observe(domain, res)):
+        if ev is None:
+            continue                      # abandoned after too many kills (counted in res["skipped"])
         res["evaluations"] += 1
+        d = emitted.get(s)
+        if d is None:                     # the model predicts LocationParseError
+            if ev["k"] == "lpe":
+                res["agree"] += 1
+                if rng.random() < plan["sample"]:
+                    pending.append(ev)
+            else:
+                if ev["k"] == "url":
+                    res["accepted"] += 1
+                pending.append(ev)
+            continue
+        kind, pos, port, mk, mu, k2m, samem, _demand = d
+        ev["ref"] = [kind, pos, port]
         if ev["k"] == "url":
             res["accepted"] += 1
             if kind == "auth" and ev["u"]["host"] not in (NONE, []):
@@ -196,52 +261,6 @@ def _exhaustive_shard(job):
                                        "parse_url": [None if x == NONE else (x if isinstance(x, int) else text(x)) for x in got]})
         else:
             pending.append(ev)
-
-    def on_line(ln):
-        if not ln.startswith('<<"R", "'):
-            return False
-        if not ln.endswith('">>'):
-            raise tlc.MachineryError("truncated emission line: " + ln[:200])
-        handle(json.loads(ln[8:-3].replace('\\"', '"')))
-        res["emitted"] += 1
-        return True
-
-    invs = "".join(f"INVARIANT {i}\n" for i in STAGE1_INVS + ["EmitRef"])
-    r = tlc.run("MC_Url", MC_CFG.format(alpha=plan["alpha"], p=plan["p"], n=plan["n"], sl=plan["sl"], c1=c1, c2=c2, invs=invs),
-                workers=1, on_line=on_line, timeout=14400)
-    res.update(distinct=r.distinct, generated=r.generated, violated=r.violated, wall=r.wall, domain=0)
-    if r.violated:        # TLC stopped at the counter-example: the run is reported as a stage-1 violation
-        res["trace"] = [ln for ln in r.out.splitlines() if ln.startswith("s = ")][-1:]
-        return res
-    # the strings of this shard that printed nothing: the model predicts LocationParseError
-    if plan["sl"] == 0:
-        heads, maxrest = [""], plan["n"]
-    elif c1 == 0:
-        heads, maxrest = [""] + ([chr(c) for c in alpha] if plan["sl"] == 2 else []), 0
-    else:
-        heads, maxrest = [chr(c1) + (chr(c2) if plan["sl"] == 2 else "")], plan["n"] - plan["sl"]
-    chars = [chr(c) for c in alpha]
-    ndomain = 0
-    for h in heads:
-        for k in range(0, maxrest + 1):
-            for tup in itertools.product(chars, repeat=k):
-                s = pfx + h + "".join(tup)
-                ndomain += 1
-                if s in emitted:
-                    continue
-                ev = observe(s)
-                res["evaluations"] += 1
-                if ev["k"] == "lpe":
-                    res["agree"] += 1
-                    if rng.random() < plan["sample"]:
-                        pending.append(ev)
-                else:
-                    if ev["k"] == "url":
-                        res["accepted"] += 1
-                    pending.append(ev)
-    res["domain"] = ndomain
-    if ndomain != r.distinct:
-        raise tlc.MachineryError(f"shard {plan} c1={c1} c2={c2}: python domain {ndomain} != TLC distinct states {r.distinct}")
     judge(pending, res)
     return res
 
@@ -315,10 +334,11 @@ def _random_shard(job):
     rng = random.Random(seed)
     res = _new_res()
     res.update(evaluations=0, accepted=0, nontrivial=set(), samples=[], kinds={})
+    strings = [gen_grammar(rng) if i % 4 else gen_unicode(rng) for i in range(n)]
     traces = []
-    for i in range(n):
-        s = gen_grammar(rng) if i % 4 else gen_unicode(rng)
-        ev = observe(s)
+    for s, ev in zip(strings, guarded_observe(strings, res)):
+        if ev is None:
+            continue
         res["evaluations"] += 1
         if ev["k"] == "url":
             res["accepted"] += 1
@@ -343,25 +363,44 @@ PROBES = {"at-signs": lambda n: "http://" + "a@" * n, "colons": lambda n: "http:
           "backslashes": lambda n: "http:" + "\\" * n, "schemeish": lambda n: "a" * n + "+" * n}
 
 
-def timing_probe():
+PROBE_FLOOR = 10.0     # CPU seconds; the probe never raises a timing violation, it only must not hang the harness
+
+
+def _probe_one(job):
+    name, n = job
     parse_url, LPE = _api()
+    s = PROBES[name](n)
+    t0 = time.process_time()
+    try:
+        parse_url(s)
+        k = "url"
+    except LPE:
+        k = "lpe"
+    except Exception as ex:
+        k = type(ex).__name__
+    return [k, round(time.process_time() - t0, 5)]
+
+
+def timing_probe():
+    """Informational: CPU seconds of parse_url on pathological repetitions of 1e3 / 1e4 / 1e5 characters."""
+    jobs = [(name, n) for name in PROBES for n in (10 ** 3, 10 ** 4, 10 ** 5)]
+    vals, dnr, _info = guard.guarded_map(_probe_one, jobs, floor=PROBE_FLOOR, factor=1e9, max_dnr=len(jobs))
     out, bad = {}, []
-    for name, mk in PROBES.items():
-        ts = []
-        for n in (10 ** 3, 10 ** 4, 10 ** 5):
-            s = mk(n)
-            t0 = time.perf_counter()
-            try:
-                parse_url(s)
-                k = "url"
-            except LPE:
-                k = "lpe"
-            except Exception as ex:
-                k = type(ex).__name__
-                bad.append((name, n, k))
-            ts.append(round(time.perf_counter() - t0, 5))
-        out[name] = {"outcome": k, "seconds_1e3_1e4_1e5": ts,
-                     "growth_1e4_to_1e5": round(ts[2] / ts[1], 1) if ts[1] > 1e-4 else None}
+    for name in PROBES:
+        ks, ts = [], []
+        for (nm, n), v, i in zip(jobs, vals, range(len(jobs))):
+            if nm != name:
+                continue
+            if i in dnr:
+                ks.append(f"killed after {dnr[i]:.0f} s CPU")
+                ts.append(None)
+            else:
+                ks.append(v[0])
+                ts.append(v[1])
+                if v[0] not in ("url", "lpe"):
+                    bad.append((name, n, v[0]))
+        out[name] = {"outcome": ks[-1], "cpu_seconds_1e3_1e4_1e5": ts,
+                     "growth_1e4_to_1e5": round(ts[2] / ts[1], 1) if ts[1] and ts[2] and ts[1] > 1e-4 else None}
     return out, bad
 
 
@@ -489,6 +528,14 @@ def run(rep):
     rep.extra["random_traces"] = {"n": sum(o["traces"] for o in rnd), "accepted": sum(o["accepted"] for o in rnd),
                                   "with_host": len(rep.nontrivial) - nt0}
     rep.extra["verdict_tally"] = tally
+    allo = outs + rnd
+    rep.extra["watchdog"] = {"per_input_budget_cpu_s": max(o.get("budget_s", 0.0) for o in allo),
+                             "rule": f"max({guard.FLOOR} s, {guard.FACTOR:g} x median per-input CPU time of the batch), worker CPU time",
+                             "did_not_return": sum(o.get("dnr", 0) for o in allo),
+                             "abandoned_after_repeated_kills": sum(o.get("skipped", 0) for o in allo),
+                             "max_per_input_cpu_s_seen": round(max(o.get("max_input_cpu_s", 0.0) for o in allo), 4)}
+    if rep.extra["watchdog"]["abandoned_after_repeated_kills"] and not rep.violations:
+        raise tlc.MachineryError("inputs were abandoned by the watchdog but no Totality:DidNotReturn violation was recorded")
     if tally.get("ok", 0) == 0:
         raise tlc.MachineryError("no trace was accepted by the monitor - vacuous")
     probe, bad = timing_probe()
@@ -518,20 +565,16 @@ def replay(rep, path):
     rep.nontrivial.update({1, 2})
     rep.states = rep.transitions = 1
     if case["kind"] == "string":
-        ev = observe(text(case["s"]))
-        rep.evaluations += 1
         res = _new_res()
+        ev = guarded_observe([text(case["s"])], res)[0]      # same CPU-time budget as the run
+        rep.evaluations += 1
         judge([ev], res)
         rep.traces += 1
         for clause, facts, e in res["bad"]:
             _report(rep, findings, clause, facts, e)
     elif case["kind"] == "probe":
-        parse_url, LPE = _api()
-        try:
-            parse_url(PROBES[case["name"]](case["n"]))
-        except LPE:
-            pass
-        except Exception as ex:
-            rep.violation("Total:OnlyUrlOrLocationParseError", f"parse_url raised {type(ex).__name__}", case)
+        vals, dnr, _ = guard.guarded_map(_probe_one, [(case["name"], case["n"])], floor=PROBE_FLOOR, factor=1e9)
+        if not dnr and vals[0][0] not in ("url", "lpe"):
+            rep.violation("Total:OnlyUrlOrLocationParseError", f"parse_url raised {vals[0][0]}", case)
     else:
         rep.violation(doc["clause"], "stage-1 violations are replayed by running the check again", case)
